@@ -48,7 +48,7 @@ def instances(tier, seed):
     H = fam.HORIZONS
     grids = [fam.G_UNI, fam.G_GEO_LOC, fam.G_UNI_LT, fam.G_FREE]
     n = 0
-    reps = 1 if tier == 'quick' else 3
+    reps = 1 if tier == 'quick' else 6
     for rep in range(reps):
         for method, intg in (('MS', 'rk'), ('SS', 'expl_euler'), ('DC', None)):
             ms = models() + ([scaled_dae()] if method == 'DC' else [])
